@@ -163,7 +163,7 @@ Lemma step_use : forall s g l pst' out,
 Proof.
   intros s g l pst' out U T P. unfold t_use_ok in U.
   repeat (apply andb_true_iff in U; let U' := fresh "U" in destruct U as [U U']).
-  rename U into Ud. rename U3 into Uu. rename U2 into Ug. rename U1 into Ur. rename U0 into Um.
+  rename U into Ud. rename U2 into Uu. rename U1 into Ur. rename U0 into Um.
   apply negb_true_iff in Ud.
   (* the statement the firmware executes is the one CPython executes *)
   assert (El : t_lstmt in_loop decl s (s_len fe t st s) c = l).
@@ -177,29 +177,45 @@ Proof.
   exists st'. split; [exact F|]. split; [exact HI'|]. split; [exact HS'|]. split; [exact Nm|].
   pose proof HS as (Pl & Pn & Pnm & Pb & Hv).
   (* the copies follow the lengths *)
+  (* a statement under an `if`: what it writes has no copy afterwards *)
+  assert (UNT : forall x o cs', p_ref pst x = POk o ->
+                pst' = mkp (upd (p_objs pst) o cs') (p_glob pst) (p_loc pst) ->
+                LenAgree (t_untrack [x] t) pst').
+  { intros x o cs' R ->. destruct (sim_var pst st x o HI HS R) as (Px & Ho & _).
+    eapply agree_upd; eauto.
+    - intros y Hy. rewrite t_cur_untrack. unfold mem. cbn [existsb]. rewrite orb_false_r.
+      destruct (Z.eqb y x) eqn:E; [apply Z.eqb_eq in E; congruence|reflexivity].
+    - intros cur' Hc. rewrite t_cur_untrack in Hc. unfold mem in Hc. cbn [existsb] in Hc. rewrite Z.eqb_refl in Hc. discriminate. }
   assert (APP : forall x a w o, s = TAppend x a -> p_ref pst x = POk o ->
                 pst' = mkp (upd (p_objs pst) o (p_obj pst o ++ [w])) (p_glob pst) (p_loc pst) ->
                 LenAgree (track1 (is_gated g) t s) pst').
-  { intros x a w o -> R ->. destruct (sim_var pst st x o HI HS R) as (Px & Ho & _).
-    cbn [track1]. destruct (t_cur t x) as [cur|] eqn:E.
+  { intros x a w o -> R E'. unfold track1. destruct (is_gated g); [cbn [swrites]; eapply UNT; eauto|]. subst pst'.
+    destruct (sim_var pst st x o HI HS R) as (Px & Ho & _).
+    destruct (t_cur t x) as [cur|] eqn:E; [destruct (targ_val t a) as [v|]|].
     - eapply agree_upd; eauto.
       + intros y Hy. now apply t_cur_set_other.
       + intros cur' Hc. rewrite t_cur_set_same in Hc. injection Hc as <-.
         rewrite !app_length. simpl. now rewrite (HA x cur o E Px).
+    - eapply agree_upd; eauto.
+      + intros y Hy. now apply t_cur_set_other.
+      + intros cur' Hc. rewrite t_cur_set_same in Hc. discriminate.
     - eapply agree_upd; eauto. intros cur' Hc. congruence. }
   assert (REM : forall x a cs o, s = TRemove x a -> p_ref pst x = POk o -> S (length cs) = length (p_obj pst o) ->
                 pst' = mkp (upd (p_objs pst) o cs) (p_glob pst) (p_loc pst) ->
                 LenAgree (track1 (is_gated g) t s) pst').
-  { intros x a cs o -> R Hlen ->. destruct (sim_var pst st x o HI HS R) as (Px & Ho & _).
-    cbn [track1]. destruct (t_cur t x) as [cur|] eqn:E.
+  { intros x a cs o -> R Hlen E'. unfold track1. destruct (is_gated g) eqn:Eg; [cbn [swrites]; eapply UNT; eauto|]. subst pst'.
+    cbn [orb] in Ur.
+    destruct (sim_var pst st x o HI HS R) as (Px & Ho & _).
+    destruct (t_cur t x) as [cur|] eqn:E; [destruct (targ_val t a) as [v|] eqn:Ev|].
     - eapply agree_upd; eauto.
       + intros y Hy. now apply t_cur_set_other.
       + intros cur' Hc. rewrite t_cur_set_same in Hc. injection Hc as <-.
-        pose proof (HA x cur o E Px) as Hl. cbn [remove_hits] in Ur. rewrite E in Ur.
-        unfold t_remove. destruct (targ_val t a) as [v|].
-        * destruct (t_remove_first v cur) as [c1|] eqn:E1; try discriminate.
-          apply t_remove_first_len in E1. lia.
-        * destruct cur; simpl in *; lia.
+        pose proof (HA x cur o E Px) as Hl. cbn [remove_hits] in Ur. rewrite E, Ev in Ur.
+        unfold t_remove. destruct (t_remove_first v cur) as [c1|] eqn:E1; try discriminate.
+        apply t_remove_first_len in E1. lia.
+    - eapply agree_upd; eauto.
+      + intros y Hy. now apply t_cur_set_other.
+      + intros cur' Hc. rewrite t_cur_set_same in Hc. discriminate.
     - eapply agree_upd; eauto. intros cur' Hc. congruence. }
   destruct s as [x items|x cm|x a|x a|x i|x i|x y sg k|x|xs ys|x p y sg k]; try discriminate.
   - (* append *)
@@ -223,30 +239,31 @@ Proof.
   - (* x[i] *)
     unfold t_lstmt in El; cbn [to_s elab1 fst] in El; subst l; cbn [p_exec] in P.
     destruct (p_ref pst x) as [o|]; simpl in P; try discriminate.
-    destruct (py_index (length (p_obj pst o)) i); try discriminate. injection P as <- <-. exact HA.
+    destruct (py_index (length (p_obj pst o)) i); try discriminate. injection P as <- <-. unfold track1; destruct (is_gated g); exact HA.
   - (* f(x, i) *)
     unfold t_lstmt in El; cbn [to_s elab1 fst] in El; subst l; cbn [p_exec] in P.
     destruct (p_ref pst x) as [o|]; simpl in P; try discriminate.
-    destruct (py_index (length (p_obj pst o)) i); try discriminate. injection P as <- <-. exact HA.
+    destruct (py_index (length (p_obj pst o)) i); try discriminate. injection P as <- <-. unfold track1; destruct (is_gated g); exact HA.
   - (* x[len(y) + k] *)
     unfold t_lstmt in El; cbn [to_s elab1 fst] in El; subst l; cbn [p_exec] in P.
     destruct (p_ref pst x) as [o|]; simpl in P; try discriminate.
     match type of P with context [py_index ?a ?b] => destruct (py_index a b) end; try discriminate.
-    injection P as <- <-. exact HA.
+    injection P as <- <-. unfold track1; destruct (is_gated g); exact HA.
   - (* x = x *)
     unfold t_lstmt in El; cbn [to_s elab1 fst] in El; subst l; cbn [p_exec] in P.
     destruct (p_ref pst x) as [o|] eqn:R; simpl in P; try discriminate.
     destruct (sim_var pst st x o HI HS R) as (Px & _).
     destruct (p_same_glob pst x o Pl Px) as [B1 B2].
     assert (pst' = pst) by (destruct in_loop; [rewrite B1 in P | rewrite B2 in P]; now injection P as <- _).
-    subst pst'. cbn [track1]. cbn [is_read orb] in Ug. rewrite orb_false_r in Ug.
-    apply negb_true_iff in Ug. destruct g; try discriminate. cbn [is_gated].
-    eapply agree_weaken; eauto. intros y cur Hc. destruct (Z.eq_dec y x) as [->|N].
-    + rewrite t_cur_set_same in Hc. discriminate.
-    + now rewrite t_cur_set_other in Hc.
+    subst pst'. unfold track1. destruct (is_gated g).
+    + cbn [swrites]. eapply agree_weaken; eauto. intros y cur Hc. rewrite t_cur_untrack in Hc.
+      destruct (mem y [x]); [discriminate|exact Hc].
+    + eapply agree_weaken; eauto. intros y cur Hc. destruct (Z.eq_dec y x) as [->|N].
+      * rewrite t_cur_set_same in Hc. discriminate.
+      * now rewrite t_cur_set_other in Hc.
   - (* permutation *)
-    cbn [is_read orb] in Ug. rewrite orb_false_r in Ug. apply negb_true_iff in Ug. destruct g; try discriminate.
-    cbn [is_gated track1].
+    assert (Et : track1 (is_gated g) t (TPerm xs ys) = t_untrack xs t) by (unfold track1; destruct (is_gated g); reflexivity).
+    rewrite Et.
     unfold t_lstmt in El; cbn [to_s elab1 fst] in El; subst l.
     cbn [use_ok] in Ul.
     destruct (tuple_exec in_loop st xs (map RVar ys) HI Ul) as (zs & R & _ & _ & L & NDx & NDy & I1 & I2).
@@ -265,7 +282,7 @@ Proof.
     unfold t_lstmt in El; cbn [to_s elab1 fst] in El; subst l; cbn [p_exec] in P.
     destruct (p_ref pst x) as [o|]; simpl in P; try discriminate.
     match type of P with context [py_index ?a ?b] => destruct (py_index a b) end; try discriminate.
-    injection P as <- <-. exact HA.
+    injection P as <- <-. unfold track1; destruct (is_gated g); exact HA.
 Qed.
 
 End Step.
@@ -296,12 +313,12 @@ Proof.
       destruct (IH _ st1 p1 p2 o2 HI1 HS1 HA1 G E2) as (st2 & F2 & HI2 & HS2 & N2 & HA2).
       rewrite N1 in F2, HA2, N2.
       exists st2. rewrite F1. cbn [rbind]. rewrite F2. cbn [rbind]. auto.
-    + (* not taken: only reads are gated, the copies do not move *)
-      assert (Et : track1 (is_gated g) t s = t).
-      { unfold t_use_ok in U. repeat (apply andb_true_iff in U; destruct U as [U ?]).
-        destruct g; try discriminate. cbn [is_gated negb orb] in *.
-        destruct s; try discriminate; reflexivity. }
-      rewrite Et in *. eapply IH; eauto.
+    + (* not taken (a gated statement): CPython's lists do not move, the names the statement writes lose their copy *)
+      assert (HA1 : LenAgree (track1 (is_gated g) t s) pst).
+      { destruct g; [|discriminate]. unfold track1. cbn [is_gated].
+        eapply agree_weaken; eauto. intros y cur Hc. rewrite t_cur_untrack in Hc.
+        destruct (mem y (swrites s)); [discriminate|exact Hc]. }
+      eapply IH; eauto.
 Qed.
 
 Lemma f_block_single : forall il st s st' out,
@@ -440,18 +457,18 @@ Proof.
   rewrite <- C. eapply HA; eauto.
 Qed.
 
-Lemma passes_sim_t : forall t0 body cs st pst pst',
+Lemma passes_sim_t : forall rb t0 body cs st pst pst',
   Inv st -> Sim pst st -> LenAgree t0 pst ->
-  t_body_ok (first_env t0 body) t0 (map fst (f_glob st)) body = true ->
+  t_body_ok (fn_first rb t0 body) t0 (map fst (f_glob st)) body = true ->
   t_compat t0 (fst (track true t0 (map fst (f_glob st)) body)) = true ->
   tp_passes (map fst (f_glob st)) body pst cs = POk pst' ->
-  exists st', tf_passes t0 (map fst (f_glob st)) body st cs = Safe st' /\ Inv st' /\ Sim pst' st'.
+  exists st', tf_passes rb t0 (map fst (f_glob st)) body st cs = Safe st' /\ Inv st' /\ Sim pst' st'.
 Proof.
-  intros t0 body. induction cs as [|c r IH]; intros st pst pst' HI HS HA G C P; simpl in *.
+  intros rb t0 body. induction cs as [|c r IH]; intros st pst pst' HI HS HA G C P; simpl in *.
   - injection P as <-. exists st. auto.
   - destruct (tp_block true c (map fst (f_glob st)) pst body) as [[p1 o1]|] eqn:E; cbn [pbind] in P; try discriminate.
     simpl in P.
-    destruct (body_sim (first_env t0 body) c body t0 st pst p1 o1 HI HS HA G E) as (st1 & F & HI1 & HS1 & N1 & HA1).
+    destruct (body_sim (fn_first rb t0 body) c body t0 st pst p1 o1 HI HS HA G E) as (st1 & F & HI1 & HS1 & N1 & HA1).
     unfold tf_pass. rewrite F. cbn [rbind]. rewrite clear_loc by auto. simpl.
     pose proof (compat_agree _ _ _ C HA1) as HA0.
     rewrite <- N1 in *. eapply IH; eauto.
@@ -472,6 +489,9 @@ Proof.
   destruct (setup_sim_t setup [] f_init p_init p0 o0 Inv_init Sim_init agree_init G1 E) as (st0 & F & HI0 & HS0 & N0 & HA0).
   change (map fst (f_glob f_init)) with (@nil name) in *. rewrite Tr in *. simpl in N0, HA0. subst d0.
   rewrite F. cbn [rbind]. simpl. eapply passes_sim_t; eauto.
+  (* the loop body is parsed with fewer copies than setup() ended with *)
+  unfold loop_env. eapply agree_weaken; eauto. intros y cur Hc. rewrite t_cur_untrack in Hc.
+  destruct (mem y (body_writes body)); [discriminate|exact Hc].
 Qed.
 
 (* CPython free of exceptions => the firmware with its folded len() is memory-safe, holds exactly the cells of the
@@ -497,20 +517,28 @@ Proof.
   exists s1, s2. repeat split; auto. congruence.
 Qed.
 
-(* what the guard relies on in the parser: removing a run-time value shrinks a non-empty copy by one entry,
-   appending anything extends it by one *)
-Theorem track_remove_runtime : forall g t x off cur, t_cur t x = Some cur -> cur <> [] ->
-  exists c1, t_cur (track1 g t (TRemove x (TRt off))) x = Some c1 /\ S (length c1) = length cur.
+(* what the repair does in the parser model: an append / remove whose argument is not a parse-time constant takes the
+   copy away (no placeholder, no pop(0)), and so does any write under an `if` *)
+Theorem track_runtime_arg_untracks : forall t x a, targ_val t a = None ->
+  t_cur (track1 false t (TAppend x a)) x = None /\ t_cur (track1 false t (TRemove x a)) x = None.
 Proof.
-  intros g t x off cur H N. cbn [track1 targ_val]. rewrite H, t_cur_set_same. exists (tl cur). split; auto.
-  destruct cur; simpl; congruence.
+  intros t x a H. cbn [track1]. rewrite H.
+  destruct (t_cur t x) as [cur|] eqn:E; [rewrite t_cur_set_same; auto|auto].
 Qed.
 
-Theorem track_append_any : forall g t x a cur, t_cur t x = Some cur ->
-  exists c1, t_cur (track1 g t (TAppend x a)) x = Some c1 /\ length c1 = S (length cur).
+Theorem track_gated_untracks : forall t s x, In x (swrites s) -> t_cur (track1 true t s) x = None.
 Proof.
-  intros g t x a cur H. cbn [track1]. rewrite H, t_cur_set_same. eexists. split; eauto.
-  rewrite app_length. simpl. lia.
+  intros t s x H. unfold track1. rewrite t_cur_untrack.
+  assert (M : mem x (swrites s) = true) by (apply existsb_exists; exists x; split; [exact H|apply Z.eqb_refl]).
+  now rewrite M.
+Qed.
+
+(* the copies the body of `while True:` is parsed with: nothing the body writes *)
+Theorem loop_env_untracks : forall t0 body x, In x (body_writes body) -> t_cur (loop_env t0 body) x = None.
+Proof.
+  intros t0 body x H. unfold loop_env. rewrite t_cur_untrack.
+  assert (M : mem x (body_writes body) = true) by (apply existsb_exists; exists x; split; [exact H|apply Z.eqb_refl]).
+  now rewrite M.
 Qed.
 
 (* ------------------------------------------------------------------ witnesses *)
@@ -520,21 +548,33 @@ Proof. vm_compute. reflexivity. Qed.
 Lemma len_ok_python : exists pst, run_py_t len_ok_setup len_ok_body [2; 0; 3; 1]%Z = POk pst /\ p_live pst = 6.
 Proof. eexists. split; vm_compute; reflexivity. Qed.
 
-Lemma stale_branch_oob : exists cs pst, run_py_t stale_branch_setup stale_branch_body cs = POk pst /\
-  run_fw_t stale_branch_setup stale_branch_body cs = Unsafe OutOfBounds.
-Proof. exists [0; 0; 0]%Z. eexists. split; vm_compute; reflexivity. Qed.
+(* the witness of the repaired finding: inside the guard now, and the firmware run on the old readings is safe and ends
+   in a state that represents CPython's *)
+Lemma stale_branch_repaired : len_ok stale_branch_setup stale_branch_body = true /\
+  exists pst st, run_py_t stale_branch_setup stale_branch_body [0; 0; 0]%Z = POk pst /\ run_fw_t stale_branch_setup stale_branch_body [0; 0; 0]%Z = Safe st /\
+                 f_live_cells st = p_live pst.
+Proof. split; [vm_compute; reflexivity|]. eexists. eexists. split; [|split]; vm_compute; reflexivity. Qed.
 
-Lemma stale_pass_oob : exists cs pst, run_py_t stale_pass_setup stale_pass_body cs = POk pst /\
-  run_fw_t stale_pass_setup stale_pass_body cs = Unsafe OutOfBounds.
-Proof. exists [0; 0; 0]%Z. eexists. split; vm_compute; reflexivity. Qed.
+(* the witness of the repaired finding: inside the guard now, and the firmware run on the old readings is safe and ends
+   in a state that represents CPython's *)
+Lemma stale_pass_repaired : len_ok stale_pass_setup stale_pass_body = true /\
+  exists pst st, run_py_t stale_pass_setup stale_pass_body [0; 0; 0]%Z = POk pst /\ run_fw_t stale_pass_setup stale_pass_body [0; 0; 0]%Z = Safe st /\
+                 f_live_cells st = p_live pst.
+Proof. split; [vm_compute; reflexivity|]. eexists. eexists. split; [|split]; vm_compute; reflexivity. Qed.
 
-Lemma stale_rebind_oob : exists cs pst, run_py_t stale_rebind_setup stale_rebind_body cs = POk pst /\
-  run_fw_t stale_rebind_setup stale_rebind_body cs = Unsafe OutOfBounds.
-Proof. exists [1; 0]%Z. eexists. split; vm_compute; reflexivity. Qed.
+(* the witness of the repaired finding: inside the guard now, and the firmware run on the old readings is safe and ends
+   in a state that represents CPython's *)
+Lemma stale_rebind_repaired : len_ok stale_rebind_setup stale_rebind_body = true /\
+  exists pst st, run_py_t stale_rebind_setup stale_rebind_body [1; 0]%Z = POk pst /\ run_fw_t stale_rebind_setup stale_rebind_body [1; 0]%Z = Safe st /\
+                 f_live_cells st = p_live pst.
+Proof. split; [vm_compute; reflexivity|]. eexists. eexists. split; [|split]; vm_compute; reflexivity. Qed.
 
-Lemma stale_def_oob : exists cs pst, run_py_t stale_def_setup stale_def_body cs = POk pst /\
-  run_fw_t stale_def_setup stale_def_body cs = Unsafe OutOfBounds.
-Proof. exists [2]%Z. eexists. split; vm_compute; reflexivity. Qed.
+(* the witness of the repaired finding: inside the guard now, and the firmware run on the old readings is safe and ends
+   in a state that represents CPython's *)
+Lemma stale_def_repaired : len_ok stale_def_setup stale_def_body = true /\
+  exists pst st, run_py_t stale_def_setup stale_def_body [2]%Z = POk pst /\ run_fw_t stale_def_setup stale_def_body [2]%Z = Safe st /\
+                 f_live_cells st = p_live pst.
+Proof. split; [vm_compute; reflexivity|]. eexists. eexists. split; [|split]; vm_compute; reflexivity. Qed.
 
 Lemma shadow_ok_guard : len_ok shadow_ok_setup shadow_ok_body = true.
 Proof. vm_compute. reflexivity. Qed.
@@ -564,6 +604,9 @@ Proof.
   destruct (existsb (Z.eqb y) params) eqn:E; auto. apply existsb_eqb_In in E. contradiction.
 Qed.
 
-Lemma stale_pop_oob : exists cs pst, run_py_t stale_pop_setup stale_pop_body cs = POk pst /\
-  run_fw_t stale_pop_setup stale_pop_body cs = Unsafe OutOfBounds.
-Proof. exists [3]%Z. eexists. split; vm_compute; reflexivity. Qed.
+(* the witness of the repaired finding: inside the guard now, and the firmware run on the old readings is safe and ends
+   in a state that represents CPython's *)
+Lemma stale_pop_repaired : len_ok stale_pop_setup stale_pop_body = true /\
+  exists pst st, run_py_t stale_pop_setup stale_pop_body [3]%Z = POk pst /\ run_fw_t stale_pop_setup stale_pop_body [3]%Z = Safe st /\
+                 f_live_cells st = p_live pst.
+Proof. split; [vm_compute; reflexivity|]. eexists. eexists. split; [|split]; vm_compute; reflexivity. Qed.
